@@ -126,6 +126,17 @@ CHECKS = {
         "note": "c2r transforms with a length-1 last axis and no explicit length are excluded (the references disagree among themselves there)",
         "technique": "property-based testing: differential against numpy.fft/scipy.fft; exact-rational label model for STFT",
     },
+    "C16": {
+        "text": "Constructor fuzzing of all six classes against a model of the documented contract: generated array shapes (valid / too few dims / wrong "
+                "fixed axis / empty sample / 0-d), 12 dtypes (allowed, safely castable, uncastable) on NumPy and Dask, and every metadata argument valid or "
+                "one of several invalid kinds -- accepted iff the model accepts, ValueError otherwise; attribute assignment (refusals leave the object "
+                "unchanged); like()/pickle/compute/persist/to_dask_array/rechunk reproduce every attribute; every object returned by a catalogue of "
+                "library operations (stepped slices, index tuples on fixed/trailing axes, ufuncs, conversions) satisfies the contract or the call "
+                "refuses. The same contract predicate is applied to every library output inside all other checks. Exploration.",
+        "ref": "DESIGN.md section 4 C16",
+        "note": "NaN/inf centre frequencies are not generated; valid sample_rate assignment on baseband signals is outside the property (it speaks of construction and library operations)",
+        "technique": "property-based testing: constructor/assignment fuzzing against a contract model; contract invariant on all library outputs",
+    },
     "C18": {
         "text": "Generated-input search against an independent table of all 7-smooth numbers below 2^64: exhaustive for 0 <= N < 10^6 (10^7 thorough), "
                 "at s-1, s, s+1 and the midpoint for the 7-smooth s < 2^62 (all of them in the thorough tier), Hypothesis integers over [0, 2^62), and "
